@@ -64,6 +64,7 @@ class Spec:
         self.doc = doc
         self.trusted = False       # assumed contract (never verified): listed in evidence
         self.frame_props = ()
+        self.lemma_fns = []
 
     def requires(self, name, fn):
         self.pre.append(Clause(name, fn))
@@ -82,6 +83,12 @@ class Spec:
         """assumed contract: used at call sites, never verified (listed in every evidence file that uses it)"""
         self.trusted = True
         self.trusted_why = why
+        return self
+
+    def uses_lemma(self, name, fn):
+        """instances of a separately proved lemma (Lean, /verif/lemmas) added as hypotheses while this function's
+        own clauses are verified: fn(a, r) -> formula.  Not exported to callers."""
+        self.lemma_fns.append((name, fn))
         return self
 
     def files(self, fn):
